@@ -10,6 +10,7 @@
 name: reads.jenkins
 define: U_JENKINS
 src: builtin_hashes.c
+native: reads
 enforce: spifhash_jenkins
 backend: sat
 loops: 1
@@ -19,6 +20,7 @@ timeout: 280
 name: reads.jenkins32
 define: U_JENKINS32
 src: builtin_hashes.c
+native: reads
 enforce: spifhash_jenkins32
 backend: sat
 loops: 1
@@ -28,6 +30,7 @@ timeout: 280
 name: reads.jenkinsLE
 define: U_JENKINSLE
 src: builtin_hashes.c
+native: reads
 enforce: spifhash_jenkinsLE
 backend: sat
 loops: 1
@@ -37,6 +40,7 @@ timeout: 280
 name: reads.rotating
 define: U_ROTATING
 src: builtin_hashes.c
+native: reads
 enforce: spifhash_rotating
 backend: sat
 loops: 1
@@ -46,6 +50,7 @@ timeout: 280
 name: reads.one_at_a_time
 define: U_OAAT
 src: builtin_hashes.c
+native: reads
 enforce: spifhash_one_at_a_time
 backend: sat
 loops: 1
@@ -55,6 +60,7 @@ timeout: 280
 name: reads.fnv
 define: U_FNV
 src: builtin_hashes.c
+native: reads
 enforce: spifhash_fnv
 backend: sat
 loops: 1
